@@ -392,6 +392,15 @@ fn wrappings(c: &Case) -> Vec<Case> {
     v
 }
 
+pub fn cases_for_c04(thorough: bool) -> Vec<Case> {
+    let mut v = f1(thorough);
+    v.extend(f2());
+    v.extend(f3());
+    v.extend(f5());
+    v.extend(f6());
+    v
+}
+
 pub fn run(ctx: &Ctx) -> Report {
     let mut report = Report::new();
     let thorough = ctx.thorough();
